@@ -7,7 +7,7 @@ import Proofs.Lemmas.C04Real
     * `c04_extendReversed_spec`, `c04_extendReversed_spec_lines`, `c04_extendReversed_ends_at_start` – what `extend_reversed` returns.
     * `c04_finish_one_contour`, `c04_finish_closed_two_contours`, `c04_stroke_contours_closed`, `c04_stroke_contours_round_start` –
       the output is a concatenation of contours `MoveTo, (LineTo|CurveTo)*, ClosePath`; with a round START cap the crate emits no
-      `ClosePath` for an open sub-path and that contour ends with the `CurveTo`s of `round_cap start_pt start_norm` instead.
+      `ClosePath` for an open sub-path and that contour ends with the `CurveTo`s of `round_cap join_thresh start_pt start_norm` instead.
     * `c04_stroke_output_empty_iff` – the output is empty iff no `LineTo`/`ClosePath` moves the current point.
     PROVED, part B (lawful ordered field; `C04HypotLaw`: `hypot x y ≥ 0`, `hypot x y · hypot x y = x·x + y·y`, inhabited by ℝ):
     * `c04_norm_spec`, `c04_do_line_offsets`, `c04_do_join_start` – the offset vector is orthogonal to the tangent, of length w/2,
@@ -78,30 +78,30 @@ theorem c04_extendReversed_ends_at_start (p : Point K) (e : PathEl K) (t : List 
 /-- **`finish` emits one contour.** Under the context invariant (`C04Inv`: forward and backward path both empty, or both
     `MoveTo` followed by `LineTo`/`CurveTo` only – kept by every step on a polyline, `c04_I_step`) and with a sub-path in
     progress, `finish` appends exactly one contour: closed (`MoveTo, (LineTo|CurveTo)*, ClosePath`) when the start cap is
-    butt or square; with a round start cap: `MoveTo q`, drawing elements, then the elements of `round_cap start_pt start_norm`,
+    butt or square; with a round start cap: `MoveTo q`, drawing elements, then the elements of `round_cap join_thresh start_pt start_norm`,
     where `q = start_pt - start_norm` if point equality is sound. -/
 theorem c04_finish_one_contour (style : StrokeStyle K) (c : StrokeCtx K) (h : C04Inv c) (hne : c.forward_path ≠ []) :
     ∃ x, c.finish style = some { c with output := c.output ++ x, forward_path := [], backward_path := [] } ∧
       (style.start_cap ≠ 2 → c04_ClosedContour x) ∧
-      (style.start_cap = 2 → ∃ q mid, x = .MoveTo q :: (mid ++ roundCap c.start_pt c.start_norm) ∧
+      (style.start_cap = 2 → ∃ q mid, x = .MoveTo q :: (mid ++ roundCap c.join_thresh c.start_pt c.start_norm) ∧
         (∀ e ∈ mid, c04_isSeg e = true) ∧ (c04_PeqSound K → q = c.start_pt - c.start_norm)) := by
   obtain ⟨hf, hb⟩ := h.ok_of_ne hne
   obtain ⟨rp, hrp⟩ := c04_lastEndPoint_PathOK hb
   obtain ⟨rev, hrev, hsegs, _⟩ := c04_extendReversed_segs hb
   obtain ⟨q, t, e0, ht⟩ := hf
-  have hmid : c04_Segs (t ++ c04_endCap style c.last_pt rp ++ rev) :=
-    c04_Segs_append (c04_Segs_append ht (c04_endCap_segs _ _ _)) hsegs
-  refine ⟨c.forward_path ++ c04_endCap style c.last_pt rp ++ rev ++ c04_startCap style c.start_pt c.start_norm, ?_, ?_, ?_⟩
+  have hmid : c04_Segs (t ++ c04_endCap c.join_thresh style c.last_pt rp ++ rev) :=
+    c04_Segs_append (c04_Segs_append ht (c04_endCap_segs _ _ _ _)) hsegs
+  refine ⟨c.forward_path ++ c04_endCap c.join_thresh style c.last_pt rp ++ rev ++ c04_startCap c.join_thresh style c.start_pt c.start_norm, ?_, ?_, ?_⟩
   · rw [c04_finish_eq c style hne hrp hrev]
     simp only [List.append_assoc]
   · intro h2
-    obtain ⟨m, hm, _, em⟩ := c04_startCap_closed style c.start_pt c.start_norm h2
-    refine ⟨q, (t ++ c04_endCap style c.last_pt rp ++ rev) ++ m, ?_, c04_Segs_append hmid hm⟩
+    obtain ⟨m, hm, _, em⟩ := c04_startCap_closed c.join_thresh style c.start_pt c.start_norm h2
+    refine ⟨q, (t ++ c04_endCap c.join_thresh style c.last_pt rp ++ rev) ++ m, ?_, c04_Segs_append hmid hm⟩
     rw [em, e0]
     simp only [List.cons_append, List.append_assoc]
   · intro h2
     refine ⟨q, _, ?_, hmid, fun hs => h.head_f hs q t e0⟩
-    rw [c04_startCap_round style _ _ h2, e0]
+    rw [c04_startCap_round _ style _ _ h2, e0]
     simp only [List.cons_append, List.append_assoc]
 
 /-- **`finish_closed` emits two closed contours** (whatever the caps), and resets the paths. -/
@@ -134,20 +134,20 @@ theorem c04_stroke_contours_closed (els : List (PathEl K)) (style : StrokeStyle 
 example : (⟨2, 1, 4, 0, 1⟩ : StrokeStyle Rat).start_cap ≠ 2 := by decide
 
 /-- **Contours of the outline, any caps.** Every contour is closed as above, or (round start cap only; the contour of an open
-    sub-path) it is `MoveTo q`, `LineTo`/`CurveTo` elements, then the `CurveTo`s of `round_cap s n` with no `ClosePath`; if point
+    sub-path) it is `MoveTo q`, `LineTo`/`CurveTo` elements, then the `CurveTo`s of `round_cap tol s n` with no `ClosePath`; if point
     equality is sound (every lawful scalar; not `Float`, where `0.0 == -0.0`) then `q = s - n`.
-    NOT proved: that `round_cap s n` ends at `s - n` (geometry of the arc). -/
+    NOT proved: that `round_cap tol s n` ends at `s - n` (geometry of the arc). -/
 theorem c04_stroke_contours_round_start (els : List (PathEl K)) (style : StrokeStyle K) (tolerance : K)
     (hp : ∀ e ∈ els, c04_isPoly e = true) :
     ∃ cs : List (List (PathEl K)), strokeUndashed els style tolerance = .ok cs.flatten ∧
       ∀ x ∈ cs, (∃ p mid, x = .MoveTo p :: (mid ++ [.ClosePath]) ∧ ∀ e ∈ mid, c04_isSeg e = true) ∨
-        (style.start_cap = 2 ∧ ∃ q s n mid, x = .MoveTo q :: (mid ++ roundCap s n) ∧ (∀ e ∈ mid, c04_isSeg e = true) ∧
-          (∀ e ∈ roundCap s n, c04_isCurve e = true) ∧ (c04_PeqSound K → q = s - n)) := by
+        (style.start_cap = 2 ∧ ∃ q tol s n mid, x = .MoveTo q :: (mid ++ roundCap tol s n) ∧ (∀ e ∈ mid, c04_isSeg e = true) ∧
+          (∀ e ∈ roundCap tol s n, c04_isCurve e = true) ∧ (c04_PeqSound K → q = s - n)) := by
   obtain ⟨out, h, ⟨cs, rfl, hg⟩, _⟩ := c04_strokeUndashed_summary els style tolerance hp
   refine ⟨cs, h, fun x hx => ?_⟩
-  rcases hg x hx with hc | ⟨h2, q, s, n, mid, e, hm, hq⟩
+  rcases hg x hx with hc | ⟨h2, q, tl, s, n, mid, e, hm, hq⟩
   · exact Or.inl hc
-  · exact Or.inr ⟨h2, q, s, n, mid, e, hm, c04_roundCap_curves s n, hq⟩
+  · exact Or.inr ⟨h2, q, tl, s, n, mid, e, hm, c04_roundCap_curves tl s n, hq⟩
 
 /-- **Empty output.** The output is empty iff the source has no non-degenerate segment: `c04_hasSegment` follows the
     stroker's current point and start point through the source and reports whether some `LineTo` target differs from the
